@@ -1,10 +1,11 @@
 #!/bin/bash
 # Must-fail corpus for the machinery itself: every seeded change under /verif/seeded whose meta.json
-# names a detecting check is applied to a scratch worktree of /repo's HEAD in turn (tools/seedrun.sh) and that check must report a VIOLATION;
-# the unchanged tree must report none. Run after every change to the engine or the contracts.
-# usage: tools/selftest.sh [seed-id ...]      (default: all seeds with detected_by)
+# names a detecting check is applied to a scratch worktree of /repo's HEAD in turn (tools/seedrun.sh) and
+# that check must report a VIOLATION. Run after every change to the engine or the contracts.
+# usage: tools/selftest.sh [-j N] [seed-id ...]      (default: all seeds with detected_by, 3 at a time)
 cd /verif
-fail=0
+J=3
+if [ "${1:-}" = "-j" ]; then J=$2; shift 2; fi
 seeds="$@"
 [ -z "$seeds" ] && seeds=$(python3 - <<'PY'
 import json,glob,os
@@ -14,13 +15,16 @@ for m in sorted(glob.glob('/verif/seeded/*/meta.json')):
         print(os.path.basename(os.path.dirname(m)))
 PY
 )
-for s in $seeds; do
+one() {
+  s=$1
   prop=$(python3 -c "
 import json,re
 d=json.load(open('/verif/seeded/$s/meta.json'))['detected_by']
 print(d['property'] if isinstance(d,dict) else re.match(r'C[0-9]+',d).group(0))")
   out=$(tools/seedrun.sh /verif/seeded/$s/patch.diff $prop 2>&1)
   n=$(echo "$out" | grep -c "^VIOLATION property=$prop")
-  if [ "$n" -ge 1 ]; then echo "ok   $s detected by $prop ($n)"; else echo "MISS $s not detected by $prop"; fail=1; fi
-done
-exit $fail
+  if [ "$n" -ge 1 ]; then echo "ok   $s detected by $prop ($n)"; else echo "MISS $s not detected by $prop"; fi
+}
+export -f one
+echo $seeds | tr ' ' '\n' | xargs -P $J -I{} bash -c 'one {}' | tee /verif/out/selftest.log
+! grep -q "^MISS" /verif/out/selftest.log
